@@ -422,6 +422,10 @@ def shapes(maxpay=1500):
     "ipv4-udp-rip": _cat(l2(), ipv4(), udp(free=False), rip()),
     "ipv4-udp-vxlan": _cat(l2(), ipv4(), udp(free=False), st.one_of(st.none(), u(24)).map(lambda v: {"t": "vxlan", "vni": v}), inner_eth),
     "ipv6-raw": _cat(l2(), ipv6(nh=_free_nh6()), R()),
+    # extension header chains that end exactly at the end of the packet
+    "ipv6-ext-nonext": _cat(l2(), ipv6(nh=st.just(59), ext=st.lists(_ext_header(), min_size=1, max_size=4)),
+                            st.just({"t": "raw", "len": 0, "pat": 0, "fixed": True})),
+    "ipv6-ext-raw": _cat(l2(), ipv6(nh=_free_nh6(), ext=st.lists(_ext_header(), min_size=1, max_size=4)), raw(0, 8)),
     "ipv6-udp": _cat(l2(), ipv6(), udp(), R()),
     "ipv6-tcp": _cat(l2(), ipv6(), tcp(), R()),
     "ipv6-udp-dns": _cat(l2(), ipv6(), udp(free=False), dns()),
